@@ -172,6 +172,7 @@ def exposes(cell, ir):
 
 def main(tier, write_baseline=False):
     run = Run("C04", tier, "other", checker_cmd=common.checker_cmd("C04", tier))
+    run.confirm_abstracted = (':set_default_doc/',)  # refutations of these exact contracts count only with an input that fails on the real code (report.Run.violation)
     M.RAISE_CTX.update(prop="C04", write=bool(write_baseline))
     run.trusted_base.update(["rule engine of checks/C04.py (shape contracts of the three emitters)", "cddvc E1 (record with presence bits) for the frame lemma on set_default_doc", "CPython, inspect.signature and argparse as the oracle of the bounded part"])
     refuted = []
